@@ -269,18 +269,44 @@ let fuel () = nat_of_int !fuel_steps
 let depth () = nat_of_int !fuel_depth
 
 (* _normalize with exhaustion report: FUEL when the model's own fuel did not suffice *)
-let norm_checked (x : e) : (e, string) result =
+type 'a nres = NOk of 'a | NErr of string
+let norm_checked (x : e) : e nres =
   let fu = fuel () in
   let r = fully_reduce ops fu x in
   match step ops r with
-  | Some _ -> Error "FUEL steps"
+  | Some _ -> NErr "FUEL steps"
   | None ->
       (match nfr ops fu (depth ()) r with
-       | Some y -> Ok y
-       | None -> Error "FUEL depth")
+       | Some y -> NOk y
+       | None -> NErr "FUEL depth")
 
 let show_norm (x : e) : string =
-  match norm_checked x with Ok y -> show_expr y | Error m -> m
+  match norm_checked x with NOk y -> show_expr y | NErr m -> m
+
+let ntrace (x : e) : string =
+  let tr = normalize_trace ops (fuel ()) (depth ()) x in
+  Printf.sprintf "bad=%b steps=%d" (List.exists bad_label tr) (List.length tr)
+
+let show_token (t : float pynum token) : string =
+  match t with
+  | TName s -> ocaml_string_of_coq s
+  | TLP -> "(" | TRP -> ")" | TComma -> "," | TEq -> "="
+  | TStr x -> "\"" ^ pos_to_string x ^ "\""
+  | TNum c -> show_num c
+  | TPos n -> "p" ^ pos_to_string n
+let show_tokens (ts : float pynum token list) : string = String.concat " " (List.map show_token ts)
+
+let show_result (r : e Model.result) : string =
+  match r with Model.Ok x -> "OK " ^ show_expr x | Raises -> "RAISES"
+
+(* arg ::= num | str | badstr | none | expr *)
+let parse_arg (a : string) : float pynum pyarg =
+  match a with
+  | "str" -> AStr (true, pos_of_int 2)
+  | "badstr" -> AStr (false, pos_of_int 2)
+  | "none" -> AOther
+  | "expr" -> AExpr (Var (pos_of_int 3))
+  | _ -> ANum (parse_num a)
 
 let trace_flags (x : e) : string =
   let tr = reduce_trace ops (fuel ()) x in
@@ -349,8 +375,8 @@ let run_line (line : string) : string =
            | Atom v :: r1 ->
                let (p, r2) = parse_point r1 in let (x, _) = parse_expr r2 in
                (match norm_checked (synth_fwd ops (parse_pos v) x) with
-                | Ok s -> show_outcome show_num (at_via ops x s p)
-                | Error m -> m)
+                | NOk s -> show_outcome show_num (at_via ops x s p)
+                | NErr m -> m)
            | _ -> raise (Parse "PEARLY"))
       | "DEXPR" ->
           (match r with
@@ -371,6 +397,67 @@ let run_line (line : string) : string =
           let (p, r1) = parse_point r in let (x, _) = parse_expr r1 in
           show_opt (show_outcome show_partials)
             (differential_at_early ops (fuel ()) (depth ()) x (enum_of x) p) "FUEL"
+      | "NTRACE" ->
+          let (x, _) = parse_expr r in ntrace x
+      | "PTRACE" ->
+          (match r with
+           | Atom v :: r1 -> let (x, _) = parse_expr r1 in ntrace (synth_fwd ops (parse_pos v) x)
+           | _ -> raise (Parse "PTRACE"))
+      | "DTRACE" ->
+          let (x, _) = parse_expr r in
+          let sp = synthetic_partials ops x (enum_of x) in
+          let trs = List.concat_map (fun (_, s) -> normalize_trace ops (fuel ()) (depth ()) s) sp in
+          Printf.sprintf "bad=%b steps=%d" (List.exists bad_label trs) (List.length trs)
+      | "EQ" ->
+          let (a, r1) = parse_expr r in let (b, _) = parse_expr r1 in
+          string_of_bool (sm_expr_eqb ops a b)
+      | "PEQ" ->
+          let (p, r1) = parse_point r in let (q, _) = parse_point r1 in
+          string_of_bool (sm_point_eqb ops p q)
+      | "SHOW" ->
+          let (x, _) = parse_expr r in show_tokens (show x)
+      | "SHOWPOINT" ->
+          let (p, _) = parse_point r in show_tokens (show_point p)
+      | "SHOWPARTIAL" ->
+          (match r with
+           | Atom v :: r1 -> let (x, _) = parse_expr r1 in show_tokens (show_partial x (parse_pos v))
+           | _ -> raise (Parse "SHOWPARTIAL"))
+      | "SHOWDERIV" -> let (x, _) = parse_expr r in show_tokens (show_derivative x)
+      | "SHOWDIFF" -> let (x, _) = parse_expr r in show_tokens (show_differential x)
+      | "SHOWLOC" ->
+          let (p, r1) = parse_point r in let (x, _) = parse_expr r1 in show_tokens (show_located x p)
+      | "PARSEBACK" ->
+          let (x, _) = parse_expr r in
+          (match parse (fun c -> c) (parse_fuel x) (show x) with
+           | Some (y, []) -> string_of_bool (sm_expr_eqb ops y x && sm_expr_eqb ops x y && y = x)
+           | _ -> "false")
+      | "OPPOW" ->
+          (match r with
+           | [Atom a] -> show_result (op_pow ops (Var (pos_of_int 2)) (parse_arg a))
+           | _ -> raise (Parse "OPPOW"))
+      | "OPBIN" ->
+          (match r with
+           | [Atom a] ->
+               let x = parse_arg a in
+               let v = Var (pos_of_int 2) in
+               show_result (op_add v x) ^ " | " ^ show_result (op_sub v x)
+           | _ -> raise (Parse "OPBIN"))
+      | "MKNTH" ->
+          (match r with
+           | [Atom k; Atom inner; Atom a] ->
+               let i = parse_arg inner and n = parse_arg a in
+               show_result (if k = "pow" then mk_nth_power ops i n else mk_nth_root ops i n)
+           | _ -> raise (Parse "MKNTH"))
+      | "MKBASE" ->
+          (match r with
+           | [Atom k; Atom inner; Atom a] ->
+               let i = parse_arg inner and b = parse_arg a in
+               show_result (if k = "exp" then mk_exponential ops i b else mk_logarithm ops i b)
+           | _ -> raise (Parse "MKBASE"))
+      | "MKVAR" ->
+          (match r with
+           | [Atom a] -> show_result (mk_variable (parse_arg a))
+           | _ -> raise (Parse "MKVAR"))
       | "VARS" ->
           let (x, _) = parse_expr r in
           String.concat " " (List.map pos_to_string (enum_of x))
